@@ -66,8 +66,6 @@ ASSUMPTIONS = [
     "statistical monitor: studentised z-test, N = 1e5 (quick) / 4e5 (thorough) draws per test, threshold |z| > 7.5 "
     "(two-sided tail 6.4e-14; <= 15000 tests per run keep the family-wise false-alarm rate <= 1e-9 under the normal "
     "approximation; integrands are bounded or polynomial in Gaussian draws so the Cramer correction at z = 7.5 is < 10x)",
-    "estimate(*args) with an array argument is property C15's finding (python-float tangents) and is not exercised here: "
-    "the value is read from jvp_estimate(...).primal for programs with a vector argument",
     "parameters stay in the open interior of their domains (p in [0.15, 0.85], geometric p in [0.35, 0.75], scale in [0.4, 1])",
     "JAX API translation layer (DESIGN §2)",
 ]
@@ -83,7 +81,7 @@ FLOORS = {
         "programs_with_cond": 80, "programs_two_estimator_kinds": 200, "forward_law_identified": 1,
     },
 }
-TIMEOUT_S = {"quick": 1500, "thorough": 5400}
+TIMEOUT_S = {"quick": 3600, "thorough": 10800}  # watchdog only (shared machine); see CASE_BUDGET_S
 CASE_BUDGET_S = 120
 
 Z_THRESHOLD = 7.5
@@ -107,7 +105,7 @@ for _p in R.CREINF:
 def plan(tier, seed):
     quick = tier == "quick"
     npts = 2 if quick else 4
-    counts = {"enum": 20, "pathwise": 22, "script": 40, "stat": 26} if quick else {"enum": 150, "pathwise": 170, "script": 300, "stat": 150}
+    counts = {"enum": 18, "pathwise": 20, "script": 34, "stat": 22} if quick else {"enum": 150, "pathwise": 170, "script": 300, "stat": 150}
     cases = []
 
     def add(family, spec, tag, unit=None, n=npts):
@@ -481,10 +479,9 @@ def mon_enum(ctx, prog, th, v, count=True):
     for nm, gi in zip(prog.names, g):
         if not _ok(gi, gref[nm]):
             raise Fail("grad", {**_th_detail(th), "argument": nm, "grad_estimate": _f64(gi).tolist(), "reference": gref[nm]})
-    if not prog.vector_arg:
-        ev_ = _run(ctx, prog, "est", "jit", _key(4), *prog.args(th))
-        if not _ok(ev_, e0):
-            raise Fail("estimate-value", {**_th_detail(th), "estimate": float(ev_), "reference": e0})
+    ev_ = _run(ctx, prog, "est", "jit", _key(4), *prog.args(th))
+    if not _ok(ev_, e0):
+        raise Fail("estimate-value", {**_th_detail(th), "estimate": float(ev_), "reference": e0})
     if count:
         ctx.count("enum_points_decided")
 
@@ -668,12 +665,11 @@ def mon_equiv(ctx, prog, th, v, pts, rng, do_eager, do_mvmap, count=True):
         raise Fail("jvp-not-linear-in-tangent", {**_th_detail(th, v), "tangent": float(t), "sum_v_i_basis_i": lin})
     if count:
         ctx.count("equiv_grad_vs_jvp")
-    if not prog.vector_arg:
-        ev_ = _run(ctx, prog, "est", "jit", k, *prog.args(th))
-        if not _ok(ev_, p, abs(float(p))):
-            raise Fail("estimate-vs-jvp-primal", {**_th_detail(th), "estimate": float(ev_), "jvp_primal": float(p)})
-        if count:
-            ctx.count("equiv_estimate_vs_primal")
+    ev_ = _run(ctx, prog, "est", "jit", k, *prog.args(th))
+    if not _ok(ev_, p, abs(float(p))):
+        raise Fail("estimate-vs-jvp-primal", {**_th_detail(th), "estimate": float(ev_), "jvp_primal": float(p)})
+    if count:
+        ctx.count("equiv_estimate_vs_primal")
     if do_eager:
         pe, te = _run(ctx, prog, "jvp", "eager", k, *a)
         if not (_ok(pe, p, abs(float(p))) and _ok(te, t, mag)):
@@ -782,16 +778,30 @@ def _cond_site_unit_fails(ctx):
     return cache["cond-site"]
 
 
-def _culprit(ctx, spec, monitor):
+def _culprit(ctx, spec, monitor, quantity):
     labels = R.labels_of(spec)
-    if R.has_site_in_cond(spec) and _cond_site_unit_fails(ctx):
-        return "site-inside-cond-branch"
-    if len(labels) == 1:
-        return labels[0]
     bad = [lb for lb in labels if _unit_fails(ctx, lb, monitor)]
     if bad:
         return "+".join(bad)
+    if R.has_site_in_cond(spec) and not quantity.startswith("raises") and _cond_site_unit_fails(ctx):
+        return "site-inside-cond-branch"
+    if len(labels) == 1:
+        return labels[0]
     return "composed(" + "+".join(sorted({lb.split("[")[0] for lb in labels})) + (",cond" if R.has_cond(spec) else "") + ")"
+
+
+QUANTITY_CLASS = {
+    "value": "value", "value-mean": "value", "estimate-value": "value",
+    "tangent": "derivative", "tangent-mean": "derivative", "grad": "derivative", "grad-mean": "derivative",
+    "tangent-per-draw": "derivative",
+}
+
+
+def violation_key(monitor, culprit, quantity):
+    """mechanism key: <monitor>|<culprit>|<observable class>; the exact quantity goes to the detail"""
+    if culprit == "site-inside-cond-branch":
+        monitor = "cond"
+    return f"{monitor}|{culprit}|{QUANTITY_CLASS.get(quantity, quantity)}"
 
 
 def _run_family(ctx, prog, family, th, v, pts, rng, first, count=True):
@@ -843,8 +853,8 @@ def _run_case(case, ctx):
     state = {"decided": False, "raised": False}
 
     def report(monitor, f, th):
-        culprit = _culprit(ctx, spec, monitor)
-        key = f"{monitor}|{culprit}|{f.quantity}"
+        culprit = _culprit(ctx, spec, monitor, f.quantity)
+        key = violation_key(monitor, culprit, f.quantity)
         state["decided"] = True
         if f.quantity.startswith("raises"):
             state["raised"] = True
@@ -867,7 +877,7 @@ def _run_case(case, ctx):
     if not state["raised"]:
         th, v = pts[0]
         try:
-            mon_equiv(ctx, prog, th, v, pts if len(pts) > 1 else pts * 2, rng, do_eager=(case.get("index", 0) % 2 == 0),
+            mon_equiv(ctx, prog, th, v, pts if len(pts) > 1 else pts * 2, rng, do_eager=(case.get("index", 0) % 3 == 0),
                       do_mvmap=(case.get("index", 0) % 2 == 1 or bool(case.get("unit"))))
         except Fail as f:
             report("equiv", f, th)
